@@ -17,6 +17,9 @@ Value gen(uint64_t seed, const std::string& tier)
     Value p      = Value::object();
     p["opts"]    = o.to_json();
     p["sim"]     = gen_sim(g);
+    // the calling program's own OpenMP thread setting (S2 in DESIGN 1): some regions of setup() (level caches, rhs build)
+    // do not set the thread count themselves and inherit it
+    p["icv"]     = g.chance(0.5) ? g.range(2, 16) : 1;
     return p;
 }
 
@@ -32,6 +35,7 @@ void run(const Value& plan, Result& r)
     {
         CoutCapture cap;
         SimRun sr(plan.at("sim"), r);
+        omp_set_num_threads((int)plan.at("icv").as_int(1));
         s->setup();
         s->solve();
         sr.finish();
